@@ -127,3 +127,95 @@ Definition fed_agrees (fuel : nat) prios urls ft sh w vars (root_type : string) 
       | _ => false
       end
   end.
+
+(* ---------- the same with named fragments: the full planner model, each step's own definitions ---------- *)
+From GW Require Import Gw.Plan2.
+
+Fixpoint flat_sel2 (fuel : nat) (sh : fshape) (frags : list fragdef) (ptype : string) (s : sel) {struct fuel} : list fsel :=
+  match fuel with
+  | O => []
+  | S f =>
+      match s with
+      | Field alias name _ _ sub =>
+          let key := rkey alias name in
+          match shape_of (ptype ++ "." ++ name)%string sh with
+          | Some (t, (li, nn)) => [FS key li nn (flat_map (flat_sel2 f sh frags t) sub)]
+          | None => [FS key false false (flat_map (flat_sel2 f sh frags "") sub)]
+          end
+      | Inline tcond _ sub => flat_map (flat_sel2 f sh frags (if String.eqb tcond "" then ptype else tcond)) sub
+      | Spread name _ =>
+          match frag_for name frags with
+          | Some d => flat_map (flat_sel2 f sh frags (f_tcond d)) (f_sel d)
+          | None => []
+          end
+      end
+  end.
+
+Definition flatten2 (fuel : nat) (sh : fshape) (frags : list fragdef) (ptype : string) (sels : list sel) : list fsel :=
+  merge_fsels fuel (flat_map (flat_sel2 fuel sh frags ptype) sels).
+
+Section Fed2.
+  Variable w : world.
+  Variable vars : list (string * json).
+  Variable sh : fshape.
+  Variable fuel : nat.
+
+  Definition node_answer2 (frags : list fragdef) (ptype : string) (sels : list sel) (id : string) : res json :=
+    match find_obj id (w_objs w) with
+    | Some o => Ok (exec fuel w frags vars (Some o) (b_type o) [Inline ptype [] sels])
+    | None => Err "service returned no object for node"
+    end.
+
+  Fixpoint run_thens2 (n : nat) (sels_of_parent : list sel) (frags_of_parent : list fragdef) (ptype_of_parent : string)
+           (thens : list fstep) (start : list string) (result : json) (acc : json) {struct n} : res json :=
+    match n with
+    | O => Err "step nesting exceeds fuel"
+    | S n' =>
+        fold_left (fun racc c =>
+          acc0 <- racc ;;
+          match c with
+          | FStep _ ptype ipoint sels frags thens' =>
+              pts <- find_insertion_points ipoint (flatten2 fuel sh frags_of_parent ptype_of_parent sels_of_parent) (obj_fields result) start ;;
+              fold_left (fun racc2 p =>
+                acc1 <- racc2 ;;
+                r <- node_answer2 frags ptype sels (last_point_id p) ;;
+                acc2 <- insert_object acc1 p r ;;
+                run_thens2 n' sels frags ptype thens' p r acc2) pts (Ok acc0)
+          end) thens (Ok acc)
+    end.
+
+  Definition run_plan2 (root_type : string) (plan : fstep) : res json :=
+    match plan with
+    | FStep _ _ _ _ _ roots =>
+        fold_left (fun racc c =>
+          acc0 <- racc ;;
+          match c with
+          | FStep _ ptype _ sels frags thens' =>
+              let r := exec fuel w frags vars None root_type sels in
+              acc1 <- insert_object acc0 [] r ;;
+              run_thens2 fuel sels frags ptype thens' [] r acc1
+          end) roots (Ok (JObj []))
+    end.
+End Fed2.
+
+(* the scrub walk only looks at insertion points and dependents *)
+Fixpoint forget_frags (s : fstep) : pstep :=
+  match s with
+  | FStep l t ip ss _ th => PStep l t ip ss ((fix go (l : list fstep) := match l with [] => [] | x :: r => forget_frags x :: go r end) th)
+  end.
+
+Definition gateway_answer2 (fuel : nat) (prios : list string) (urls : urlmap) (ft : ftypes) (sh : fshape)
+           (w : world) (vars : list (string * json)) (frags : list fragdef) (root_type : string) (sels : list sel)
+           (client : list ksel) : res json :=
+  plan <- plan_operation2 prios urls ft frags fuel root_type sels ;;
+  data <- run_plan2 w vars sh fuel root_type plan ;;
+  paths <- scrub_fields fuel client (forget_frags plan) ;;
+  scrub_all_paths (flatten2 fuel sh frags root_type sels) paths data.
+
+Definition fed2_agrees (fuel : nat) prios urls ft sh w vars (frags : list fragdef) (root_type : string) (sels : list sel)
+           (client : list ksel) (observed_class : nat) (observed : json) : bool :=
+  negb (Nat.eqb observed_class 0) ||
+  match gateway_answer2 fuel prios urls ft sh w vars frags root_type sels client with
+  | Ok d => json_equiv d observed
+  | _ => false
+  end.
